@@ -2317,9 +2317,10 @@ impl<'s> Semantics<'s> {
         let head_index = {
             let block = control_flow_graph.new_block()?;
 
-            let temp = self.temp(0, bits_size);
-            block.load(temp.clone(), si.get()?);
-            block.store(di.get()?, temp.into());
+            // through the operands, so that a segment override of the
+            // source is honoured
+            let src = self.operand_load(block, &detail.operands[1])?;
+            self.operand_store(block, &detail.operands[0], src)?;
 
             block.index()
         };
